@@ -8,7 +8,12 @@
    (value and objects), an event is delivered iff subscribed, every reference
    received denotes the object sent, a call through a received reference is executed
    once by that object, the implementation holds service ids only, forwarders are
-   sound, the Idl invariants.
+   sound, the Idl invariants; overload groups (several actions of one name, added
+   to the interface together): every action has a Go name of its own (GoName = the
+   generators' registerName walk), the parameter signatures of the methods of one
+   name differ, a call through the proxy method of an overload is executed by that
+   overload (RightOverloadRuns; shown not to be vacuous by the configuration
+   MCIdlRpc_dev_byname.cfg, deviation "the proxy resolves a call by the name alone").
 2. TLC exports complete behaviours: exhaustively for every one-action interface
    of the pool (every action x every pair of operations x both layouts of the IDL
    text), by simulation for interfaces of up to three actions and longer operation
@@ -21,7 +26,10 @@
    object references, hosted by the implementation (Create<Itf> on its service) or
    by the client (Create<Itf> on the proxy's service reference), and every
    reference that arrives is called (ident): the call must be executed once, by
-   the object that was sent.
+   the object that was sent.  Overloads: the generated names must be the ones the
+   specification derives, the implementation method that runs must be the overload
+   the proxy method denotes.  Dynamic values that hold composites of the less
+   common scalars are built by the harness's own encoder (value.Opaque).
 """
 import json, os
 from vlib import Infra
@@ -31,18 +39,31 @@ def run(ctx):
     thorough = ctx.tier == "thorough"
     # interface theorems for every interface of up to two (thorough: three) actions (no operations); operation
     # theorems for every action alone x three operations; thorough: every pair of actions x two operations
-    ctx.design_check("IdlRpc", "MCIdlRpc_itf_thorough.cfg" if thorough else "MCIdlRpc_itf.cfg", workers=4, timeout=2400)
-    ctx.design_check("IdlRpc", "MCIdlRpc.cfg", workers=4, timeout=2400)
+    # (the runs of the quick tier side by side: 4 + 2 + 1 + 1 + 1 workers)
+    from concurrent.futures import ThreadPoolExecutor
+    with ThreadPoolExecutor(5) as ex:
+        f_mc = ex.submit(ctx.design_check, "IdlRpc", "MCIdlRpc.cfg", workers=4, timeout=2400)
+        f_itf = ex.submit(ctx.design_check, "IdlRpc", "MCIdlRpc_itf_thorough.cfg" if thorough else "MCIdlRpc_itf.cfg",
+                          workers=4 if thorough else 2, timeout=2400)
+        # RightOverloadRuns is not vacuous: with the named deviation "the proxy resolves a call by the method
+        # name alone" TLC must find a call that another overload executes
+        f_dv = ex.submit(ctx.tlc, "IdlRpc", "MCIdlRpc_dev_byname.cfg", workers=1, timeout=1200, count=False, expect_ok=False)
+        f_g = ex.submit(ctx.tlc, "GenIdlRpc", "GenIdlRpc_thorough.cfg" if thorough else "GenIdlRpc.cfg", workers=1,
+                        timeout=3000, count=False)
+        f_sim = ex.submit(ctx.tlc, "GenIdlRpc", "GenIdlRpc_sim.cfg", workers=1, timeout=2400, count=False,
+                          simulate="num=%d" % (2500 if thorough else 220), depth=12, seed=ctx.seed)
+        f_mc.result(), f_itf.result()
+        dv, g, sim = f_dv.result(), f_g.result(), f_sim.result()
+    if "RightOverloadRuns" not in (dv.violated or []):
+        raise Infra("RightOverloadRuns holds although calls are resolved by name only (vacuous invariant): %s" % dv.out[-2000:])
+    ctx.extra["dev_by_name_only"] = "RightOverloadRuns violated as expected"
     if thorough:
         ctx.design_check("IdlRpc", "MCIdlRpc_thorough.cfg", workers=4, timeout=3000)
-        ctx.design_check("IdlRpc", "MCIdlRpc_deep.cfg", workers=4, timeout=3000)     # every action alone x four operations
-    g = ctx.tlc("GenIdlRpc", "GenIdlRpc_thorough.cfg" if thorough else "GenIdlRpc.cfg", workers=1, timeout=2400, count=False)
+        ctx.design_check("IdlRpc", "MCIdlRpc_deep.cfg", workers=4, timeout=3000)     # every unit alone x four operations
     if not g.ok:
         raise Infra("IdlRpc export failed: %s\n%s" % (g.violated, g.out[-3000:]))
     exported = g.printed("S")
     single = thin(exported, ctx.seed, thorough)
-    sim = ctx.tlc("GenIdlRpc", "GenIdlRpc_sim.cfg", workers=1, timeout=2400, count=False,
-                  simulate="num=%d" % (2500 if thorough else 220), depth=12, seed=ctx.seed)
     if sim.violated or not sim.sim:
         raise Infra("IdlRpc simulation failed: %s" % sim.out[-3000:])
     multi = [s for s in sim.printed("S") if len(s["key"]) > 1]
@@ -90,7 +111,7 @@ def run(ctx):
         ctx.sample(s)
     ctx.extra.update({"scenario_classes": classes, "fail_count": res.get("fail_count"),
                       "selftest_corruptions_detected": st, "exhaustive": True,
-                      "explanation": "every action of the pool alone x every pair of operations x both layouts of the IDL text "
+                      "explanation": "every unit of the pool (an action, or >= 2 members of an overload group) alone x every pair of operations x both layouts of the IDL text "
                                      "(exhaustive; of the second layout an even sample is replayed), interfaces of up to three "
                                      "actions x six operations (simulation); code generated by stub.GeneratePackage at check time, "
                                      "one Go package per IDL package (interface + the interfaces it refers to) and IDL packages of "
@@ -100,8 +121,12 @@ def run(ctx):
     ctx.extra.update(ex)
     ctx.assumptions += [
         "the correspondence between IDL actions and generated Go methods is positional (declaration order = uid order per kind)",
-        "unknown ('X') and void parameters are not exchanged as values; dynamic values are i / s / b; the generic object "
-        "reference ('obj') carries Probes",
+        "unknown ('X') and void parameters are not exchanged as values; dynamic values are i / s / b and, for the actions "
+        "declared with Idl!Dyn, values of the listed scalar / list / map / tuple / struct types (no references, no nested "
+        "dynamic value inside them); the generic object reference ('obj') carries Probes",
+        "the members of an overload group are called with the k-th arguments and the k-th result (not every pair); the Go "
+        "names of overloads are compared with the specification's (a generator that named them otherwise would be reported "
+        "as generated-api-shape/overload)",
         "objects are told apart by a method ident() -> int32 that every exchanged interface has; a reference is observed by calling "
         "it from outside any executing object (a call from inside the object that is referred to would wait for itself by design)",
         "the client reaches the service through one connection for all its proxies, like bus/session (the server's local session "
@@ -118,14 +143,32 @@ def thin(exported, seed, thorough):
     per_layout = 60 if thorough else 20
     per_dev = 6 if thorough else 3
     out, second, devs = [], {}, {}
+    groups = {}
     for s in exported:
         dev = [o["dev"] for o in s["ops"] if o.get("dev")]
         if dev:
             devs.setdefault((dev[0], s["layout"]), []).append(s)
         elif s["layout"] == "aux-last":
             second.setdefault(tuple(s["key"]), []).append(s)
+        elif len(s["key"]) > 1:       # an overload group: members x values x members x values
+            groups.setdefault(tuple(s["key"]), []).append(s)
         else:
             out.append(s)
+    # overload groups: every behaviour whose operations touch different members of the group in every
+    # order of members (one per pair of members and first value), and an even sample of the rest
+    per_group = 150 if thorough else 36
+    for k in sorted(groups):
+        l = groups[k]
+        cross, rest, seen = [], [], set()
+        for s in l:
+            ids = tuple(o["id"] for o in s["ops"])
+            if len(set(ids)) > 1 and ids not in seen:
+                seen.add(ids)
+                cross.append(s)
+            else:
+                rest.append(s)
+        step = max(1, len(rest) // per_group)
+        out += cross + rest[(seed % step)::step][:per_group]
     for k in sorted(second):
         l = second[k]
         step = max(1, len(l) // per_layout)
